@@ -7,7 +7,7 @@ from .common import *
 
 ALLOWED_AXIOMS = []
 DETAIL = 0
-RULE = ("times H:MM, HH:MM, H:MM:SS (0-23 h) and 1-11 am/pm (H:MM am, H pm, Hpm, upper/lower case; 12:xx am/pm left out "
+RULE = ("times H:MM, HH:MM, H:MM:SS (0-23 h) and 1-11 am/pm (H:MM am, H:MM:SS pm, H pm, Hpm, upper/lower case; 12:xx am/pm left out "
         "as in the statement); alone, followed by a zone, `T [ZONE_A] to ZONE_B` over zone names of config.json that match "
         "[A-Z]{2,4} and are not currency codes and over GMT+/-h[:mm] (h <= 19) forms; the default zone set through "
         "set_timezone (table names and GMT forms) and read back; `T +/- duration` (hours, minutes, seconds, days, mixed, "
@@ -57,13 +57,13 @@ def zone(rng):
     return (t.lower() if low else t), t, o
 
 
-# EXCLUDED from the generator (reported, see Properties/C11.v C11_meridiem_with_seconds_refuted):
-#   * `H:MM:SS am/pm`: the regexes with seconds have no meridiem group; minimal input `1:20:30 pm` gives 01:20:30 UTC
-#     (expected 13:20:30), `11:59:59 PM + 1 second` gives 12:00:00.  Model and crate agree.
+# EXCLUDED from the generator:
 #   * `12:xx am/pm` (12:30 am -> 12:30): left out by the statement itself.
 #   * zone names that are also currency codes (`10:30 TMT` is 10 and `30 TMT` money) and names the syntax cannot
 #     express (ChST, ANAST, ...): left out by the statement.
 #   * `T1 ZONE to T2 ZONE` ("No more token"): the statement's `T1 to T2` has no zones.
+# `H:MM:SS am/pm` IS generated: it was a defect (`1:20:30 pm` read as 01:20:30, the regexes with seconds had no
+# meridiem group), repaired in /repo 6e1968b.
 CORNER_W = [0, 1, 59, 60, 3599, 3600, 43199, 43200, 43201, 86399, 86340, 82800, 1800, 37800]
 
 
@@ -73,15 +73,20 @@ def time_text(rng, w=None, allow_ampm=True):
         w = rng.choice(CORNER_W) if rng.random() < 0.25 else rng.randrange(86400)
     h, m, sec = w // 3600, (w // 60) % 60, w % 60
     forms = []
+    h12 = h % 12
     if sec != 0:
         forms = ["%d:%02d:%02d" % (h, m, sec), "%02d:%02d:%02d" % (h, m, sec)]
-    else:
-        forms = ["%d:%02d" % (h, m), "%02d:%02d" % (h, m), "%d:%02d:00" % (h, m)]
-        h12 = h % 12
         if allow_ampm and 1 <= h12 <= 11:
             mer = "am" if h < 12 else "pm"
             mer = rng.choice([mer, mer.upper(), mer.capitalize()])
-            forms += ["%d:%02d %s" % (h12, m, mer), "%d:%02d%s" % (h12, m, mer), "%02d:%02d %s" % (h12, m, mer)]
+            forms += ["%d:%02d:%02d %s" % (h12, m, sec, mer), "%d:%02d:%02d%s" % (h12, m, sec, mer),
+                      "%02d:%02d:%02d %s" % (h12, m, sec, mer)]
+    else:
+        forms = ["%d:%02d" % (h, m), "%02d:%02d" % (h, m), "%d:%02d:00" % (h, m)]
+        if allow_ampm and 1 <= h12 <= 11:
+            mer = "am" if h < 12 else "pm"
+            mer = rng.choice([mer, mer.upper(), mer.capitalize()])
+            forms += ["%d:%02d:00 %s" % (h12, m, mer), "%d:%02d %s" % (h12, m, mer), "%d:%02d%s" % (h12, m, mer), "%02d:%02d %s" % (h12, m, mer)]
             if m == 0:
                 forms += ["%d %s" % (h12, mer), "%d%s" % (h12, mer)]
     return rng.choice(forms), w
@@ -216,7 +221,8 @@ def generate(rng, tier):
     for tt, w, op, dt, d in [("23:30", 84600, "+", "45 minutes", 2700), ("0:15", 900, "-", "30 minutes", 1800),
                              ("23:59:59", 86399, "+", "1 second", 1), ("0:00", 0, "-", "1 second", 1),
                              ("12:00", 43200, "+", "24 hours", 86400), ("12:00", 43200, "-", "36 hours", 129600),
-                             ("11:30 pm", 84600, "+", "1 hour", 3600), ("1 am", 3600, "-", "2 hours", 7200)]:
+                             ("11:30 pm", 84600, "+", "1 hour", 3600), ("1 am", 3600, "-", "2 hours", 7200),
+                             ("11:59:59 PM", 86399, "+", "1 second", 1), ("1:20:30 pm", 48030, "-", "14 hours", 50400)]:
         sh = (w + d) % 86400 if op == "+" else (w - d) % 86400
         cases.append(mk("%s %s %s" % (tt, op, dt), [], ("UTC", 0), "arith" + op, w=w, d=d, zone=["UTC", 0], shown=sh, relmod=sh))
     # --- T1 to T2
